@@ -783,14 +783,23 @@ pub async fn acquire_key(base_url: &Uri) -> Result<Key> {
     }
     // the response body carries the key: the generic deserialize error echoes the whole body,
     // it must not travel into logs, status messages or /provision responses
-    hyper_client::read_response_body(response)
+    let key: Key = hyper_client::read_response_body(response)
         .await
         .map_err(|e| match e {
             Error::Hyper(HyperErrorType::Deserialize(_)) => Error::Key(
                 KeyErrorType::ParseKeyResponse(format!("{}", KeyAction::Acquire)),
             ),
             other => other,
-        })
+        })?;
+    // a key value that is not hex cannot sign anything, and the signing error would carry the
+    // value into the logs and the status message: reject the document here, without its content
+    if hex::decode(&key.key).is_err() {
+        return Err(Error::Key(KeyErrorType::ParseKeyResponse(format!(
+            "{}",
+            KeyAction::Acquire
+        ))));
+    }
+    Ok(key)
 }
 
 pub async fn attest_key(base_url: &Uri, key: &Key) -> Result<()> {
